@@ -28,6 +28,10 @@ CLAIMS = {
          '(2) src/util/polysmallmod.rs: all 51 coefficient-wise primitives (modulo, negate, add, sub, scalar and operand variants, dyadic product; component, _p and _ps level, in-place and not) return word by word the exact residue, hence canonical residues. '
          '(3) The mod-switch / rescale API of the evaluator refuses invalid operands and wrong representations and its three call forms satisfy the same result relation (shared with C05). '
          'Not covered yet: validity of the results of add/sub/multiply/relinearize/Galois operations, key validity checkers.', '5 C06'),
+ 'C10': ('RNSTool::divide_and_round_q_last_inplace and mod_t_and_divide_q_last_inplace are proved, for every base size, degree, coefficient and canonical input, to return in each word exactly the residue formula '
+         'of the algorithm (all lazy additions shown free of overflow, every slice in bounds), and two spec-level theorems give the integer reading: if the input residues are those of one integer X then each output word is '
+         'floor((X + q_k/2)/q_k) mod q_i (round to nearest, identically in every component), respectively Y mod q_i with q_k*Y = X (mod t) for the BGV variant. '
+         'ASSUMED: the constants RNSTool::new stores (inv_q_last_mod_q etc.) equal their definitions. Not covered yet: NTT-form variants, decompose/compose (CRT), fast base conversion, the BEHZ tools (sm_mrq, fast_floor, fastbconv_sk), scale-and-round decryption, exact_convey (uses f64).', '5 C10'),
  'C15': ('Serializers without context (scalars, Vec<T>, Modulus, ParmsID, SchemeType, Plaintext, EncryptionParameters, byte-width packing helpers) are verified '
          'against an abstract model of std::io::{Read,Write} quantified over all implementations: Ok implies the complete encoding was written / exactly one encoding '
          'consumed, and no unwrap/panic is reachable. Context-dependent objects (ciphertexts, keys, containers) are not covered.', '5 C15'),
@@ -40,7 +44,7 @@ NOT_APPLICABLE = {
  'C18': 'agreement across n parties and all message delivery orders is a whole-history property; the per-call code sits behind iterator closures, context plumbing and serialization and no contract within reach connects it to "keys correspond to the sum of secret keys"',
 }
 
-PENDING = ['C01', 'C03', 'C04', 'C07', 'C09', 'C10', 'C11', 'C12', 'C13', 'C16', 'C19', 'C20']
+PENDING = ['C01', 'C03', 'C04', 'C07', 'C09', 'C11', 'C12', 'C13', 'C16', 'C19', 'C20']
 
 
 def main():
